@@ -64,7 +64,7 @@ def summarise(pid, recs, seed):
         "failed": failed,
         "failed_for_other_properties": [{"case": r["case"], "property": r.get("property")} for r in other],
         "harness_errors": [{"case": r["case"], "error": r["harness_error"]} for r in errs],
-        "bound": "graphs of at most 26 targets plus five large ones (depth 200, width 300, 40x80, 30x60, a chain of 300 aggregates), file trees of at most 12 entries plus two large ones, operation sequences of at most 6 steps, seed %d" % seed,
+        "bound": "graphs of at most 26 targets (one watch-mode case with CPUs + 3 targets, at most 43) plus five large ones (depth 200, width 300, 40x80, 30x60, a chain of 300 aggregates), file trees of at most 12 entries plus two large ones, operation sequences of at most 6 steps, seed %d" % seed,
         "sample_cases": [{"case": r["case"], "what": r["what"], "ok": r["ok"]} for r in recs[:6]],
     }
 
